@@ -20,7 +20,9 @@ CycleObsClauses(r) ==
     << <<"finite", r.finite>>,
        <<"linear", r.finite => r.lin <= -11000>>,
        <<"independent-of-earlier-applications", r.finite => r.hist>>,
-       <<"power-of-two-scaling-exact", r.finite => (r.ilut \/ r.scaled)>>,
+       \* (energy-minimising aggregation accumulates in an unordered critical section: two set-ups by several
+       \*  threads differ by rounding, so bit-exact covariance can only be asked of it single-threaded)
+       <<"power-of-two-scaling-exact", r.finite => (r.ilut \/ r.scaled \/ (r.coarsening = "smoothed_aggr_emin" /\ r.nt > 1))>>,
        <<"symmetric", (r.finite /\ Palin(r) /\ r.mmat) => r.sym <= -9000>>,
        <<"positive-definite", (r.finite /\ Palin(r) /\ r.mmat) => r.posdef>>,
        <<"contraction", (r.finite /\ r.mmat /\ r.symsm /\ Smooth(r)) => r.rho < 1048576>> >>
